@@ -400,7 +400,7 @@ func blockContainerLayout(context *layoutContext, box_ Box, bottomSpace pr.Float
 			stop, resumeAt, newChild, outOfFlowResumeAt = outOfFlowLayout(context, box_, index, child_,
 				&newChildren, pageIsEmpty, absoluteBoxes, fixedBoxes, *adjoiningMargins, bottomSpace)
 			if outOfFlowResumeAt != nil {
-				brokenOutOfFlow[newChild] = brokenBox{child_, box_, outOfFlowResumeAt}
+				brokenOutOfFlow[newChild] = context.newBrokenBox(child_, box_, outOfFlowResumeAt)
 			}
 		} else if childLineBox, ok := child_.(*bo.LineBox); ok { // LineBox is a final type
 			abort, stop, resumeAt, positionY, newChildren, newFootnotes, maxLines = lineBoxLayout(context, box_, index, childLineBox,
